@@ -68,3 +68,17 @@ func TestKF_SparseRotateEmptyTree(t *testing.T) {
 		_ = db.Update(func(tx *Tx) error { return tx.RPush("l", []byte("k"), make([]byte, 60)) })
 	}
 }
+
+func TestKF_MMapShortWrite(t *testing.T) {
+	dir, _ := ioutil.TempDir("", "govc-kf")
+	defer os.RemoveAll(dir)
+	m, err := NewMMapRWManager(dir+"/f", 100)
+	if err != nil {
+		t.Fatal(err)
+	}
+	defer m.Close()
+	n, err := m.WriteAt(make([]byte, 50), 80)
+	if err == nil && n != 50 {
+		t.Errorf("REPRODUCED: MMapRWManager.WriteAt wrote %d of 50 bytes and returned a nil error", n)
+	}
+}
